@@ -299,6 +299,12 @@ def r6(ctx, rep):
                       file=f["file"], line=f["l"], fn=f["path"])
 
 
+def r7(ctx, rep):
+    # a column renamed to a spelling that differs only in case (`ID = id`) must keep its alias: names are compared exactly
+    import C05
+    rep.borrowed(C05.r5, ctx, "C09.R7", "the alias decision compares names exactly (an identifier is referenced verbatim)")
+
+
 def run(ctx, rep):
-    for r in (r1, r2, r3, r4, r5, r6):
+    for r in (r1, r2, r3, r4, r5, r6, r7):
         rep.guard(r, ctx)
